@@ -58,4 +58,66 @@ static long v_eval(Foam f, int depth)
 #define SPEC_FMT_DOMAIN(fmt, v) ((fmt) == 0 ? SPEC_FITS_SINT4(v) : (fmt) == 1 ? ((long)(v) >= 0 && (long)(v) <= 255) : (long)(v) == (long)(fmt) - 2)
 #define SPEC_FMT_BYTES(fmt)     ((fmt) == 0 ? 4 : (fmt) == 1 ? 1 : 0)
 
+
+/* 4. Encoded length of one node WITHOUT code children, from the meaning of the argf letters (comment above
+ *    foamInfoTable) and the format rules above:
+ *      tag byte; if n-ary: count in format f; then per slot:
+ *      t p D b : 1 byte        o : 2 bytes (1 if SMALL_BVAL_TAGS)    h : 2      w : 4
+ *      X F     : 4 bytes (always format 0);  F also fixes the label format: 1 if value <= 255 else 0
+ *      L       : label-format bytes        i : format-f bytes
+ *      s       : format-f length n (>= 0), then n bytes
+ *      f       : 6 bytes, d : 10 bytes  (and the node ends)
+ *      n       : 1 sign byte, format-f count n (>= 0), then 2n bytes
+ *    v_spec_len returns -1 when the bytes are not a well-formed node of that shape inside [0,argc)
+ *    (field past the end, negative length/count), -2 for shapes outside this spec ('C', '!'); otherwise the
+ *    exact number of bytes a reader must consume. */
+#ifndef V_SPEC_MAX_SLOTS
+# define V_SPEC_MAX_SLOTS 32
+#endif
+static int v_spec_neg;        /* set when a length/count field decodes to a negative int */
+static long v_spec_int(const UByte *d, long at, long argc, int fmt, long *val)
+{
+	if (fmt == 0) { if (at + 4 > argc) return -1; *val = (long)(int) DEC_LE4(d + at); return 4; }
+	if (fmt == 1) { if (at + 1 > argc) return -1; *val = d[at]; return 1; }
+	*val = fmt - 2; return 0;
+}
+static long v_spec_len(const UByte *d, long argc, int labelfmt)
+{
+	int fmt, tag, fi; long at = 1, cnt, si, k, val; const char *argf;
+	v_spec_neg = 0;
+	if (argc < 1) return -1;
+	tag = d[0]; fmt = tag < FOAM_VECTOR_START ? 0 : (tag - FOAM_VECTOR_START) / (FOAM_LIMIT - FOAM_VECTOR_START);
+	tag = tag - fmt * (FOAM_LIMIT - FOAM_VECTOR_START);
+	argf = foamInfoTable[tag - FOAM_START].argf;
+	cnt = foamInfoTable[tag - FOAM_START].argc;
+	if (cnt == FOAM_NARY) { k = v_spec_int(d, at, argc, fmt, &cnt); if (k < 0) return -1; if (cnt < 0) { v_spec_neg = 1; return -1; } at += k; }
+	for (fi = 0, si = 0; si < cnt && si < V_SPEC_MAX_SLOTS; fi++, si++) {
+		char af = argf[fi];
+		if (af == '*') af = argf[--fi];
+		switch (af) {
+		case 't': case 'p': case 'D': case 'b': k = 1; break;
+#ifdef SMALL_BVAL_TAGS
+		case 'o': k = 1; break;
+#else
+		case 'o': k = 2; break;
+#endif
+		case 'h': k = 2; break;
+		case 'w': case 'X': k = 4; break;
+		case 'F': k = v_spec_int(d, at, argc, 0, &val); if (k < 0) return -1; labelfmt = (val <= 255) ? 1 : 0; break;
+		case 'L': k = v_spec_int(d, at, argc, labelfmt, &val); if (k < 0) return -1; break;
+		case 'i': k = v_spec_int(d, at, argc, fmt, &val); if (k < 0) return -1; break;
+		case 's': k = v_spec_int(d, at, argc, fmt, &val); if (k < 0) return -1; if (val < 0) { v_spec_neg = 1; return -1; } k += val; break;
+		case 'f': return at + 6 <= argc ? at + 6 : -1;
+		case 'd': return at + 10 <= argc ? at + 10 : -1;
+		case 'n': if (at + 1 > argc) return -1;
+			  k = v_spec_int(d, at + 1, argc, fmt, &val); if (k < 0) return -1; if (val < 0) { v_spec_neg = 1; return -1; } k += 1 + 2 * val; break;
+		default: return -2;
+		}
+		if (at + k > argc) return -1;
+		at += k;
+	}
+	if (si < cnt) return -1;            /* more slots than V_SPEC_MAX_SLOTS cannot fit the harness buffer */
+	return at;
+}
+
 #endif
